@@ -69,6 +69,7 @@ fn main() {
         "C10" => facets::c10::run(&opts),
         "C05" => facets::c05::run(&opts),
         "C06" => facets::c06::run(&opts),
+        "C20" => facets::c20::run(&opts),
         other => {
             eprintln!("unknown facet {}", other);
             std::process::exit(2)
